@@ -111,6 +111,10 @@ def prepare_files(ctx, case):
     D, items = case["D"], case["items"]
     text = F.text_of(items, D)
     lines = F.feature_lines(items, D)
+    if case.get("bom") and items and items[0]["t"] == "feat":
+        # a UTF-8 byte order mark in front of the first line: whatever it becomes, every form sees the same text
+        text = "\ufeff" + text
+        lines = ["\ufeff" + lines[0]] + lines[1:]
     paths = {"plain": ctx.tmp(".gff"), "gz": ctx.tmp(".gff.gz"), "srcdb": ctx.tmp(".src.db"), "ref": ctx.tmp(".ref.db")}
     with open(paths["plain"], "w", encoding="utf-8", newline="") as fh:
         fh.write(text)
@@ -405,7 +409,11 @@ def run(ctx):
         cks = sorted(set([0, 1, 2, max(0, n - 1), n, n + 1, n + 2]))
         if ctx.tier == "quick":
             cks = sorted(set(rng.sample(cks, min(4, len(cks))) + [0]))
-        case = {"kind": "forms", "D": D, "items": items, "forms": FORMS, "cks": cks, "regime": "sparse" if sparse else "uniform"}
+        case = {"kind": "forms", "D": D, "items": items, "forms": FORMS, "cks": cks, "regime": "sparse" if sparse else "uniform",
+                "bom": (not sparse) and rng.random() < 0.08}
+        if case["bom"]:
+            case["forms"] = [f for f in FORMS if f != "FeatureDB"]
+            ctx.mon("annotations starting with a byte order mark")
         execute(ctx, case)
         text = F.text_of(items, D)
         for form in FORMS:
